@@ -56,6 +56,15 @@ Definition num_end (raw : bytes) : option nst :=
 Definition dec_ok (raw : bytes) : bool :=
   match num_end raw with Some NFrac | Some NExp => true | _ => false end.
 
+(* the text must not begin with the byte 0xEF, which the parser takes for (the start of) a byte order mark: only
+   a top-level string that SEN writes without quotes can make it so *)
+Definition no_bom (s : bytes) : bool := match s with b :: _ => negb (Byte.eqb b xef) | [] => true end.
+Definition top_ok (f : fmt) (v : jv) : bool :=
+  match f, v with
+  | FSen, JStr ((b :: _) as s) => sen_quote s || negb (Byte.eqb b xef)
+  | _, _ => true
+  end.
+
 Fixpoint keys_nodup (ks : list bytes) : bool :=
   match ks with
   | [] => true
